@@ -203,8 +203,9 @@ void run_time_range_block(vh::Case& c, const Range& g, i128 P, const std::vector
   // The operator class documents "product^2 fits an unsigned int" but only its fused methods are marked "not overflow
   // safe"; its other methods are written overflow-safe and the repository's own test drives them with the range [3,30]
   // (product 3234846615), so they are checked for every product that fits the element type (the property's quantifier);
-  // the fused methods only within the documented bound.
-  bool ops_fused_ok = P <= kOpsMaxProduct;
+  // the fused methods too, on reduced operands (they used to be checked only within the documented bound, which is narrower
+  // than the property: "every ... fused operation on reduced operands equals the exact result reduced").
+  bool ops_fused_ok = true;
   bool use_ops = c.rng.chance(1, 2);
   if (use_ops) {
     ops_small_block(c, g, vals, vals, {}, kind, salt);
